@@ -23,6 +23,7 @@ func TestRace(t *testing.T) {
 	if iters == 0 {
 		iters = 5
 	}
+	fresh, _ := strconv.Atoi(os.Getenv("C20_RACE_FRESH"))
 	only := os.Getenv("C20_RACE_PAIR")
 	world.Install()
 	ops := world.CallOps()
@@ -30,6 +31,44 @@ func TestRace(t *testing.T) {
 	shard, shards := 0, 1
 	fmt.Sscanf(os.Getenv("C20_RACE_SHARD"), "%d/%d", &shard, &shards)
 	k := 0
+	// round runs the given operations concurrently on the shared instances of w. With barrier
+	// the inputs of the two-phase operations (codes, tokens) are obtained first, one after the
+	// other, and only the library calls themselves start together: the first accesses of the
+	// calls are then not ordered by any lock hand-over in the provider. Without barrier the
+	// whole operation (provider requests included) runs free.
+	round := func(w *world.World, group []*world.Op, barrier bool) {
+		ins := make([]any, len(group))
+		if barrier {
+			for x, o := range group {
+				if o.Prep != nil {
+					engine.Safe(func() { ins[x] = o.Prep(w) })
+				}
+			}
+		}
+		var wg sync.WaitGroup
+		start := make(chan struct{})
+		for x, o := range group {
+			wg.Add(1)
+			go func(x int, o *world.Op) {
+				defer wg.Done()
+				<-start
+				engine.Safe(func() {
+					if barrier && o.Call != nil {
+						o.Call(w, ins[x])
+					} else {
+						o.Run(w)
+					}
+				})
+			}(x, o)
+		}
+		close(start)
+		wg.Wait()
+	}
+	newWorld := func() *world.World {
+		w := world.Build(nil)
+		w.PollInterval = 25 * time.Millisecond // real time here; a too short interval makes the client back off by 5 s
+		return w
+	}
 	for i := 0; i < len(ops); i++ {
 		for j := i; j < len(ops); j++ {
 			name := ops[i].Name + "|" + ops[j].Name
@@ -42,25 +81,22 @@ func TestRace(t *testing.T) {
 			}
 			pairs++
 			fmt.Fprintf(os.Stderr, "C20RACE pair=%s\n", name)
-			w := world.Build(nil)
-			w.PollInterval = 25 * time.Millisecond // real time here; a too short interval makes the client back off by 5 s
-			for it := 0; it < iters; it++ {
-				var wg sync.WaitGroup
-				start := make(chan struct{})
-				for _, o := range []*world.Op{ops[i], ops[j]} {
-					wg.Add(1)
-					go func(o *world.Op) {
-						defer wg.Done()
-						<-start
-						engine.Safe(func() { o.Run(w) })
-					}(o)
+			group := []*world.Op{ops[i], ops[j]}
+			if i == j {
+				// an operation with itself: four callers of one call on one shared instance
+				group = []*world.Op{ops[i], ops[i], ops[i], ops[i]}
+				// first concurrent use of FRESH instances (lazy initialisation, first fill of a memo)
+				for f := 0; f < fresh; f++ {
+					round(newWorld(), group, true)
 				}
-				close(start)
-				wg.Wait()
+			}
+			w := newWorld()
+			for it := 0; it < iters; it++ {
+				round(w, group, it%2 == 0)
 			}
 		}
 	}
-	fmt.Fprintf(os.Stderr, "C20RACE pairs=%d iters=%d\n", pairs, iters)
+	fmt.Fprintf(os.Stderr, "C20RACE pairs=%d iters=%d fresh=%d\n", pairs, iters, fresh)
 }
 
 // TestCoverAll (C20_COVER=1 only) runs every operation of the alphabet and every
